@@ -168,14 +168,34 @@ def child_main(script, path, marker, rfd, wfd, close_fds, inherited=None):
                     pass
             return n
 
+        def locked_by_me():
+            # kernel truth: does THIS process own a flock on the lock file?  (/proc/locks names the pid that took each
+            # lock.)  A descriptor that is merely open - a design that keeps one descriptor per object between
+            # acquisitions - holds nothing and is not what C02/C13 forbid; only where /proc/locks cannot be read does
+            # the old, stricter test (any descriptor open on the lock file) stand in.
+            try:
+                ino = os.stat(path).st_ino
+                me = str(os.getpid())
+                with open('/proc/locks') as f:
+                    for ln in f:
+                        w = ln.split()
+                        if '->' in w or 'FLOCK' not in w:
+                            continue
+                        i = w.index('FLOCK')
+                        if w[i + 3] == me and w[i + 4].rsplit(':', 1)[-1] == str(ino):
+                            return True
+                return False
+            except (OSError, IndexError, ValueError):
+                return bool(fds_on_lock_file())
+
         def released():
-            # (c) after its outermost release a process must not keep the lock file open (let alone locked)
-            if lock.is_locked or fds_on_lock_file():
+            # (c) after its outermost release a process must not still hold the lock
+            if lock.is_locked or locked_by_me():
                 io.report(b'V', 3)
 
         def failed():
-            # (b) an acquire that reported failure must not keep the lock file open (let alone locked)
-            if lock.is_locked or fds_on_lock_file():
+            # (b) an acquire that reported failure must not leave the process holding the lock
+            if lock.is_locked or locked_by_me():
                 io.report(b'V', 2)
             io.report(b'F')
 
@@ -363,9 +383,9 @@ class Controller:
             what = {0: ('filelock.process_overlap', 'a process found the exclusive marker already present'),
                     1: ('filelock.process_not_locked_inside', 'is_locked false inside the section'),
                     2: ('filelock.process_keeps_lock_after_failure',
-                        'an acquire that reported failure left the lock file open / locked in that process'),
+                        'an acquire that reported failure left that process holding the lock (is_locked or a kernel flock it owns)'),
                     3: ('filelock.process_keeps_lock_after_release',
-                        'after its outermost release a process still has the lock file open / locked')}[line]
+                        'after its outermost release a process still holds the lock (is_locked or a kernel flock it owns)')}[line]
             self.viol('C02', what[0], what[1], f'process {ch.idx} (step {self.steps})')
         elif kind == 'F':
             ch.state = 'parked'
